@@ -2,6 +2,9 @@
 // and ConnectedDescriptor::Receive over an interposed read() that plays a script of syscall results.
 #include <errno.h>
 #include <fcntl.h>
+#include <poll.h>
+#include <stdlib.h>
+#include <termios.h>
 #include <sys/socket.h>
 #include <sys/types.h>
 #include <unistd.h>
@@ -19,6 +22,9 @@
 #include "common/rpc/RpcChannel.h"
 #include "ola/Logging.h"
 #include "ola/io/Descriptor.h"
+#include "ola/io/IOUtils.h"
+#include "ola/io/Serial.h"
+#include "ola/Clock.h"
 #include "ola/io/SelectServer.h"
 #include "ola/network/IPV4Address.h"
 #include "ola/network/SocketAddress.h"
@@ -48,6 +54,7 @@ static std::deque<Tok> g_script;
 static vector<uint8_t> g_src;
 static size_t g_src_pos = 0;
 static size_t g_cap = 0;
+static unsigned long long g_read_total = 0;   // bytes returned by read() on the descriptor under test
 
 extern "C" ssize_t __real_read(int fd, void *buf, size_t count);
 extern "C" ssize_t __wrap_read(int fd, void *buf, size_t count) {
@@ -66,11 +73,16 @@ extern "C" ssize_t __wrap_read(int fd, void *buf, size_t count) {
     return k;
   }
   if (fd == g_fd && g_cap && count > g_cap) count = g_cap;
-  return __real_read(fd, buf, count);
+  ssize_t r = __real_read(fd, buf, count);
+  if (fd == g_fd && r > 0) g_read_total += r;
+  return r;
 }
 
 // ---------------------------------------------------------------- message log
-static vector<string> g_msgs;
+// deliveries go to the sink of the instance whose read callback is running
+static vector<string> g_default_sink;
+static vector<string> *g_sink = &g_default_sink;
+#define g_msgs (*g_sink)
 static void on_msg(uint8_t label, const uint8_t *data, unsigned int length) {
   g_msgs.push_back(vh::str(static_cast<int>(label)) + ":" + vh::hex(data, data ? length : 0) +
                    (data == NULL && length ? "!null" : ""));
@@ -102,6 +114,7 @@ class RecordingInflator : public ola::acn::BaseInflator {
 
 // ---------------------------------------------------------------- one partition of one stream
 struct Feeder {
+  vector<string> sink;
   virtual ~Feeder() {}
   virtual ola::io::ConnectedDescriptor *desc() = 0;
   virtual bool put(const uint8_t *p, size_t n) = 0;
@@ -312,7 +325,74 @@ struct AcnRootFeeder : Feeder {
   bool stopped() { return !valid; }
 };
 
+// The real serial entry point: a pseudo terminal whose slave side is opened with
+// BaseUsbProWidget::OpenDevice(), so every byte passes the tty line discipline as configured there.
+struct TtyFeeder : Feeder {
+  int master;
+  string path;
+  ola::io::ConnectedDescriptor *dev;
+  std::auto_ptr<ola::plugin::usbpro::DispatchingUsbProWidget> usb;
+  std::auto_ptr<ola::plugin::usbpro::DispatchingRobeWidget> robe;
+  bool ok;
+  explicit TtyFeeder(bool is_robe) : master(-1), dev(NULL), ok(false) {
+    master = posix_openpt(O_RDWR | O_NOCTTY | O_NONBLOCK);
+    if (master < 0 || grantpt(master) != 0 || unlockpt(master) != 0) return;
+    const char *name = ptsname(master);
+    if (!name) return;
+    path = name;
+    dev = ola::plugin::usbpro::BaseUsbProWidget::OpenDevice(path);
+    if (!dev) return;
+    if (is_robe) robe.reset(new ola::plugin::usbpro::DispatchingRobeWidget(dev, ola::NewCallback(&on_msg)));
+    else usb.reset(new ola::plugin::usbpro::DispatchingUsbProWidget(dev, ola::NewCallback(&on_msg)));
+    ok = true;
+  }
+  ~TtyFeeder() {
+    usb.reset();
+    robe.reset();
+    if (dev) { dev->Close(); delete dev; ola::io::ReleaseUUCPLock(path); }
+    if (master >= 0) close(master);
+  }
+  ola::io::ConnectedDescriptor *desc() { return dev; }
+  bool put(const uint8_t *p, size_t n) {
+    if (!ok) return false;
+    size_t off = 0;
+    while (off < n) {
+      // the tty input queue holds about 4 kB: feed it in pieces; the line discipline hands the bytes
+      // to the slave side asynchronously, so wait until the widget has read all of them (or nothing
+      // more arrives for a while: bytes the line discipline swallowed never will)
+      size_t piece = n - off > 1024 ? 1024 : n - off;
+      unsigned long long before = g_read_total;
+      ssize_t w = write(master, p + off, piece);
+      if (w < 0 && (errno == EAGAIN || errno == EINTR)) w = 0;
+      if (w < 0) return false;
+      off += w;
+      int quiet = 0;
+      while (g_read_total - before < static_cast<unsigned long long>(w) && quiet < 15) {
+        struct pollfd pfd;
+        pfd.fd = dev->ReadDescriptor();
+        pfd.events = POLLIN;
+        pfd.revents = 0;
+        unsigned long long seen = g_read_total;
+        poll(&pfd, 1, 20);
+        unsigned long guard = 0;
+        while (dev->DataRemaining() > 0) {
+          dev->PerformRead();
+          if (++guard > 300000) return false;
+        }
+        quiet = (g_read_total == seen) ? quiet + 1 : 0;
+      }
+      if (w == 0 && quiet >= 15) return false;
+    }
+    return true;
+  }
+  string state() {
+    return usb.get() ? vh::str(static_cast<int>(usb->m_state)) : vh::str(static_cast<int>(robe->m_state));
+  }
+};
+
 static Feeder *make_feeder(const string &proto) {
+  if (proto == "usbprotty") return new TtyFeeder(false);
+  if (proto == "robetty") return new TtyFeeder(true);
   if (proto == "robew") return new RobeWidgetFeeder();
   if (proto.compare(0, 8, "acnroot@") == 0) return new AcnRootFeeder(proto.substr(7));
   if (proto == "rpc") return new RpcFeeder();
@@ -325,8 +405,10 @@ static Feeder *make_feeder(const string &proto) {
 
 static string run_partition(const string &proto, const vector<uint8_t> &stream, const string &part,
                             size_t cap, string *trace) {
-  g_msgs.clear();
+  g_sink = &g_default_sink;
   std::auto_ptr<Feeder> f(make_feeder(proto));
+  if (!f->desc()) return "no-device";
+  g_sink = &f->sink;
   g_fd = f->desc()->ReadDescriptor();
   g_cap = cap;
   vector<string> steps;
@@ -350,7 +432,108 @@ static string run_partition(const string &proto, const vector<uint8_t> &stream, 
   g_fd = -1;
   g_cap = 0;
   *trace = join(steps, ",");
-  return f->summary();
+  string r = f->summary();
+  g_sink = &g_default_sink;
+  return r;
+}
+
+static bool drain(Feeder *f) {
+  unsigned long guard = 0;
+  while (f->desc()->DataRemaining() > 0 && !f->stopped()) {
+    f->desc()->PerformRead();
+    if (++guard > 300000) return false;
+  }
+  return true;
+}
+
+// inter <proto> <hex0>,<hex1>,... <i:n,i:n,...>
+// several live instances of one framer; the schedule says which instance receives how many bytes of
+// its own stream next.  Result: per instance its deliveries and the per-step trace.
+static string do_inter(const vector<string> &a) {
+  vector<string> hexes = vh::split(a[2], ',');
+  vector<vector<uint8_t> > streams;
+  vector<Feeder*> fs;
+  vector<size_t> pos(hexes.size(), 0);
+  vector<vector<string> > steps(hexes.size());
+  for (size_t i = 0; i < hexes.size(); i++) {
+    streams.push_back(vh::unhex(hexes[i]));
+    fs.push_back(make_feeder(a[1]));
+  }
+  string err;
+  vector<string> sched = vh::split(a[3], ',');
+  for (size_t k = 0; k < sched.size() && err.empty(); k++) {
+    vector<string> p = vh::split(sched[k], ':');
+    size_t i = vh::num(p[0]), n = vh::num(p[1]);
+    if (i >= fs.size()) continue;
+    if (n > streams[i].size() - pos[i]) n = streams[i].size() - pos[i];
+    g_sink = &fs[i]->sink;
+    g_fd = -1;
+    if (n && !fs[i]->stopped()) {
+      if (!fs[i]->put(streams[i].data() + pos[i], n)) err = "write-failed";
+      else if (!drain(fs[i])) err = "livelock";
+    }
+    pos[i] += n;
+    steps[i].push_back(vh::str(fs[i]->count()) + "@" + fs[i]->state());
+  }
+  string out;
+  for (size_t i = 0; i < fs.size(); i++) {
+    g_sink = &fs[i]->sink;
+    out += "m" + vh::str(i) + "=" + (err.empty() ? fs[i]->summary() : err) + ";s" + vh::str(i) + "=" +
+           join(steps[i], ",") + ";";
+  }
+  g_sink = &g_default_sink;
+  for (size_t i = 0; i < fs.size(); i++) delete fs[i];
+  return out + "agree=1";
+}
+
+// conns opc[@chs] <hex|part>;<hex|part>;...
+// one long-lived OPCServer; each connection is fed its own stream under its partition and then
+// closed by the client (the last one stays open); the poller of a real SelectServer notices the
+// close.  Result: per connection its deliveries and trace.
+static string do_conns(const vector<string> &a) {
+  OpcFeeder base(a[1].substr(3));           // owns the server (and a first, unused connection)
+  vector<string> conns = vh::split(a[2], ';');
+  string out;
+  for (size_t c = 0; c < conns.size(); c++) {
+    vector<string> hp = vh::split(conns[c], '|');
+    vector<uint8_t> stream = vh::unhex(hp[0]);
+    vector<string> sink;
+    g_sink = &sink;
+    int sv[2];
+    if (socketpair(AF_UNIX, SOCK_STREAM, 0, sv) != 0) return "harness-error=socketpair";
+    ola::network::TCPSocket *sock = new ola::network::TCPSocket(sv[0]);
+    sock->SetReadNonBlocking();
+    base.server->NewTCPConnection(sock);
+    vector<string> steps;
+    vector<string> sizes = vh::split(hp[1], ',');
+    size_t pos = 0;
+    string err;
+    for (size_t i = 0; i < sizes.size() && err.empty(); i++) {
+      size_t n = vh::num(sizes[i]);
+      if (n > stream.size() - pos) n = stream.size() - pos;
+      if (n) {
+        if (write(sv[1], stream.data() + pos, n) != static_cast<ssize_t>(n)) err = "write-failed";
+        unsigned long guard = 0;
+        while (err.empty() && sock->DataRemaining() > 0) {
+          sock->PerformRead();
+          if (++guard > 300000) err = "livelock";
+        }
+      }
+      pos += n;
+      ola::plugin::openpixelcontrol::OPCServer::RxState *rx = base.server->m_clients[sock];
+      steps.push_back(vh::str(sink.size()) + "@" + vh::str(rx ? rx->offset : 0));
+    }
+    out += "m" + vh::str(c) + "=" + (err.empty() ? join(sink, ",") : err) + ";s" + vh::str(c) + "=" +
+           join(steps, ",") + ";";
+    close(sv[1]);
+    if (c + 1 < conns.size()) {
+      // the client went away: let the event loop see the hang-up, run the close handler and the
+      // deferred socket cleanup
+      for (int k = 0; k < 3; k++) g_ss->RunOnce(ola::TimeInterval(0, 2000));
+    }
+  }
+  g_sink = &g_default_sink;
+  return out + "agree=1";
 }
 
 static string do_recv(const vector<string> &a) {
@@ -386,13 +569,21 @@ static string do_recv(const vector<string> &a) {
 
 static string handle(const string &p) {
   vector<string> a = vh::split(p);
+  if (a[0] == "inter") {
+    if (a.size() != 4) return "bad-op";
+    return do_inter(a);
+  }
+  if (a[0] == "conns") {
+    if (a.size() != 3 || a[1].compare(0, 3, "opc") != 0) return "bad-op";
+    return do_conns(a);
+  }
   if (a[0] == "recv") {
     if (a.size() != 4) return "bad-op";
     return do_recv(a);
   }
   // <proto> <cap> <streamhex> <part>/<part>/...
   // rpc has a fifth field (the bodies the protobuf parser rejects), used by the model only
-  if (!((a.size() == 4 && (a[0] == "usbpro" || a[0] == "robe" || a[0] == "robew" || a[0] == "opc" || a[0] == "acn" ||
+  if (!((a.size() == 4 && (a[0] == "usbpro" || a[0] == "robe" || a[0] == "robew" || a[0] == "usbprotty" || a[0] == "robetty" || a[0] == "opc" || a[0] == "acn" ||
                            a[0].compare(0, 4, "opc@") == 0 || a[0].compare(0, 8, "acnroot@") == 0)) ||
         (a.size() == 5 && a[0] == "rpc")))
     return "bad-op";
